@@ -2225,6 +2225,81 @@ fn tiny_order_checks(sched: &Sched, seed: u64) {
     drop(key);
 }
 
+/// C17 for locks whose payload is zero-sized (and a few others): formatting them with `{:?}` /
+/// `{:#?}`, directly or through wrappers and collections, must leave the raw locks as it found
+/// them. The locks are not part of the simulated world: their raw operations are recorded on
+/// this thread (every try succeeds), and the recorded sequence must be balanced - no release
+/// without a matching acquisition before it, nothing left acquired.
+fn zst_debug_checks(sched: &Sched, seed: u64) {
+    use happylock::collection::{BoxedLockCollection, OwnedLockCollection, RetryingLockCollection};
+    use happylock::poisonable::Poisonable;
+    use crate::sched::RawOp;
+    type ZM = happylock::mutex::Mutex<(), crate::raw::SimRawMutex>;
+    type ZR = happylock::rwlock::RwLock<(), crate::raw::SimRawRwLock>;
+    type EM = happylock::mutex::Mutex<[u64; 0], crate::raw::SimRawMutex>;
+    type UM = happylock::mutex::Mutex<u8, crate::raw::SimRawMutex>;
+    let mut rng = crate::rng::Rng::new(seed ^ 0x257D);
+    let pretty = rng.chance(1, 2);
+    let which = rng.below(7);
+    let (what, seq): (&str, Vec<(usize, RawOp)>) = {
+        let fmt = |d: &dyn std::fmt::Debug| if pretty { format!("{:#?}", d) } else { format!("{:?}", d) };
+        match which {
+            0 => {
+                let m = ZM::new(());
+                ("Mutex<()>", crate::raw::recording(|| fmt(&m)).1)
+            }
+            1 => {
+                let m = ZR::new(());
+                ("RwLock<()>", crate::raw::recording(|| fmt(&m)).1)
+            }
+            2 => {
+                let m = EM::new([]);
+                ("Mutex<[u64; 0]>", crate::raw::recording(|| fmt(&m)).1)
+            }
+            3 => {
+                let m = Poisonable::new(ZM::new(()));
+                ("Poisonable<Mutex<()>>", crate::raw::recording(|| fmt(&m)).1)
+            }
+            4 => {
+                let c = OwnedLockCollection::new((ZM::new(()), ZR::new(()), UM::new(3)));
+                ("OwnedLockCollection<(Mutex<()>, RwLock<()>, Mutex<u8>)>", crate::raw::recording(|| fmt(&c)).1)
+            }
+            5 => {
+                let c = RetryingLockCollection::new(vec![ZM::new(()), ZM::new(())]);
+                ("RetryingLockCollection<Vec<Mutex<()>>>", crate::raw::recording(|| fmt(&c)).1)
+            }
+            _ => {
+                let c = BoxedLockCollection::new([ZR::new(()), ZR::new(())]);
+                ("BoxedLockCollection<[RwLock<()>; 2]>", crate::raw::recording(|| fmt(&c)).1)
+            }
+        }
+    };
+    // balance per raw lock address: exclusive count / shared count
+    let mut held: std::collections::BTreeMap<usize, (i32, i32)> = std::collections::BTreeMap::new();
+    let mut bad: Option<String> = None;
+    for (a, op) in &seq {
+        let e = held.entry(*a).or_default();
+        match op {
+            RawOp::Lock | RawOp::TryLock | RawOp::LockExcl | RawOp::TryLockExcl => e.0 += 1,
+            RawOp::LockShared | RawOp::TryLockShared => e.1 += 1,
+            RawOp::Unlock | RawOp::UnlockExcl => e.0 -= 1,
+            RawOp::UnlockShared => e.1 -= 1,
+        }
+        if (e.0 < 0 || e.1 < 0) && bad.is_none() {
+            bad = Some(format!("{:?} released a raw lock it had not acquired", op));
+        }
+    }
+    if bad.is_none() && held.values().any(|e| *e != (0, 0)) {
+        bad = Some("a raw lock was left acquired".to_string());
+    }
+    let mut g = sched.lock();
+    g.stats.zst_debug_checks += 1;
+    if let Some(b) = bad {
+        let d = format!("Debug-formatting a free {} ({}): {}; recorded raw operations: {:?}", what, if pretty { "{:#?}" } else { "{:?}" }, b, seq.iter().map(|(_, o)| *o).collect::<Vec<_>>());
+        g.event(Clause::NonAcqStateChanged, 0, d);
+    }
+}
+
 /// C16 for large values: containers whose `into_inner` / `into_child` / `get_mut` results are
 /// several KiB (8 locks of 1 KiB each, and a 3 x 3 nest) - every value must come out once and be
 /// dropped exactly once. No lock is operated (these paths consume the collection).
@@ -2306,6 +2381,9 @@ pub fn run_scenario(scn: &Scenario) -> RunResult {
     }
     if scn.profile == "C08" {
         tiny_order_checks(&sched, scn.cfg.sched_seed);
+    }
+    if scn.profile == "C17" && scn.cfg.sched_seed % 8 == 0 {
+        zst_debug_checks(&sched, scn.cfg.sched_seed);
     }
     if scn.profile == "C16" && scn.cfg.sched_seed % 8 == 0 {
         big_value_roundtrips(&sched, scn.cfg.sched_seed);
